@@ -1733,7 +1733,7 @@ def known(ctx, c):
 # rewrite lean/CoapVerif/Generated/Consts2.lean on every check; Props/C09Consts.lean proves `<model numeral> =
 # Generated.C2.<name>` (design/T1.md).  A changed macro / struct size / literal breaks one of these named obligations.
 LEAN_MODULES = list(LEAN_MODULES) + ["CoapVerif.Props.C09Consts"]
-REQUIRED_THEOREMS = list(REQUIRED_THEOREMS) + [
+REQUIRED_THEOREMS = list(REQUIRED_THEOREMS) + ["block2_next_request_20bit", 
     "blockNumMax_matches_code",
     "getBlockB_matches_code",
     "stateTokenBase_matches_code",
